@@ -424,6 +424,22 @@ class G:
         t = self.rng.choice(cands)
         return Member(op, ent[0], [], ent[2][t[2]], inner=[self.mk(t)], explicit_close=explicit, tag="w:lone_then:" + op)
 
+    def lone_inspect_wrapper(self, w, op, explicit):
+        """The wrapper (w, op) whose inner chain starts with a `??` on the wrapped value (followed by whatever leads to an
+        admissible inner end world)."""
+        ent = self.WRAPS.get((w, op)) or (self.AWRAPS.get((w, op)) if self.flavour == "async" else None)
+        if ent is None:
+            return None
+        cands = [t for t in self.transitions(ent[1], False) if t[0] == "inspect" and t[2] == ent[1]]
+        if not cands:
+            return None
+        first = self.mk(self.rng.choice(cands))
+        target = self.rng.choice(list(ent[2].keys()))
+        rest = self.finish(ent[1], target) if ent[1] != target else []
+        if rest is None:
+            return None
+        return Member(op, ent[0], [], ent[2][target], inner=[first] + rest, explicit_close=explicit, tag="w:inspect_inside:" + op)
+
     def wrapper(self, w, depth, last):
         """Returns a wrapper Member applicable in world w (or None)."""
         r = self.rng
@@ -740,6 +756,15 @@ def call_name(pid, kind):
     return "::join::" + kind if pid % 7 == 4 else kind
 
 
+def forwarded(pid, kind, dsl):
+    """Every third invocation (of those that are not named by path) is written through a local macro_rules that forwards all
+    of its tokens: the macro's call site is then inside that macro's expansion while every user token keeps the caller's
+    hygiene context."""
+    if pid % 3 == 1 and pid % 7 != 4:
+        return "{ macro_rules! __fwd { ($($t:tt)*) => { %s! { $($t)* } } } __fwd!(%s) }" % (kind, dsl)
+    return None
+
+
 def in_context(pid, stmt):
     """Places the statements that evaluate the macro inside a generic function, a closure, a method, or leaves them in a
     plain function body: the expansion must not depend on the item it stands in."""
@@ -887,7 +912,16 @@ def render_prog(p, mode="twin"):
         entry = "Twin { id: %d, kind: %s, m: m_%d, r: r_%d, srcs: &[%s], branches: &[%s], tags: %s, text: %s, reference: %s, max_id: %d }" % (
             p.id, rs(kind), p.id, p.id, srcs, brs, rs(",".join(sorted(p.tags))), rs(dsl_m), rs(ref_body), p.max_id)
         return m_fn + "\n" + r_fn, entry
-    if asy:
+    fw = forwarded(p.id, kind, dsl)
+    if fw is not None:
+        p.tags.add("sp:invocation_forwarded_through_macro_rules")
+        if asy:
+            stmt = "run_async(async { let __res: %s = %s.await; dbg(__res) })" % (rty, fw)
+            r_fn = "pub fn r_%d() -> String { run_async(async { dbg({ %s }) }) }" % (p.id, ref_body)
+        else:
+            stmt = "let __res: %s = %s; dbg(__res)" % (rty, fw)
+            r_fn = "pub fn r_%d() -> String { dbg({ %s }) }" % (p.id, ref_body)
+    elif asy:
         stmt = "run_async(async { let __res: %s = %s! { %s }.await; dbg(__res) })" % (rty, call_name(p.id, kind), dsl)
         r_fn = "pub fn r_%d() -> String { run_async(async { dbg({ %s }) }) }" % (p.id, ref_body)
     else:
@@ -1164,6 +1198,16 @@ def build_corpus(tier, seed):
             for attempt in range(3):
                 if keep(gen_capture_grid(0, rng, kind, world, ops)):
                     break
+    # (b4) every wrapper whose wrapped value admits `??`: a `??` as the first inner action (in the async macros that is the
+    #      value's own `.inspect`, at every nesting depth)
+    for flav, table in (("sync", G.WRAPS), ("async", G.AWRAPS), ("async", G.WRAPS)):
+        for (w, op), ent in table.items():
+            for explicit in (True, False):
+                def picki(g, world, is_last, nth, op=op, explicit=explicit):
+                    return g.lone_inspect_wrapper(world, op, explicit)
+                for attempt in range(4):
+                    if keep(gen_forced(0, rng, next_kind() if flav == "sync" else next_async_kind(), w, picki, 0)):
+                        break
     # (b3) every wrapper around a lone `->` whose callee is a call expression
     for flav, table in (("sync", G.WRAPS), ("async", G.AWRAPS)):
         for (w, op), ent in table.items():
